@@ -114,6 +114,16 @@ func GenRefGraph(t *rapid.T, label string) *GraphCase {
 				items = append(items, ref.OrItem{Name: "integer"})
 				lf.Rules = []ref.SRule{{Name: "or", ValKind: ref.RVOr, Or: items}}
 			}
+			if lf.Rules == nil && len(leaves) > 1 && rapid.IntRange(0, 2).Draw(t, fmt.Sprint(label, "LeafType", i)) == 0 {
+				// a scalar type that is declared to be another scalar type: 1 // {type: "@other"} - reached
+				// directly and through that declaration, the other type is met along two paths
+				for _, o := range rapid.Permutation(leaves).Draw(t, fmt.Sprint(label, "LeafTypePerm", i)) {
+					if o != nm && o < nm {
+						lf.Rules = []ref.SRule{StrRule("type", o)}
+						break
+					}
+				}
+			}
 			g.Types[nm] = lf
 			gc.Order = append(gc.Order, nm)
 			continue
